@@ -200,8 +200,8 @@ def OnBoundary : List Rat → List Rat → List Rat → Prop
   | a :: as, b :: bs, q :: qs => q = a ∨ q = b ∨ OnBoundary as bs qs
   | _, _, _ => False
 
-/-- `points_not_zero` only fires on true boundary points of the meshes of the returned grids (violated by boxes far
-from the origin, see `nodal_far_box_counterexample`) -/
+/-- `points_not_zero` only fires on true boundary points of the meshes of the returned grids (proved for all levels
+`≤ 39` in `noFalseBoundary_of_levels`: the tolerance is `1e-12` of the width, the mesh width is `2^-l` of it) -/
 def NoFalseBoundary (a b : List Rat) (c : List (LV × Int)) : Prop :=
   ∀ p ∈ c, ∀ q ∈ cross (meshAxes a b p.1 false), pointNotZero a b false q = false → OnBoundary a b q
 
@@ -231,6 +231,152 @@ theorem hmv_of_noFalseBoundary (a b : List Rat) (bd : Bool) (c : List (LV × Int
     · rename_i hnz
       exact (tprod_onBoundary a b us q hz (hsep rfl p hp q hq (by simpa using hnz))).symm
   · exact meshVal_boundary a b _ q
+
+/-! ## the boundary test of the repaired `points_not_zero` on the level meshes -/
+
+theorem mem_fullAxis (a b : Rat) (l : Nat) (q : Rat) :
+    q ∈ fullAxis a b l ↔ ∃ i, i ≤ 2 ^ l ∧ linPt a b (2 ^ l) i = q := by
+  unfold fullAxis
+  simp only [List.mem_map, List.mem_range'_1]
+  constructor
+  · rintro ⟨i, hi, rfl⟩; exact ⟨i, by omega, rfl⟩
+  · rintro ⟨i, hi, rfl⟩; exact ⟨i, by omega, rfl⟩
+
+theorem tol_lt_step (a b : Rat) (hab : a < b) (l : Nat) (hl : l ≤ 39) :
+    1 / 1000000000000 * (b - a) < (b - a) / ((2 ^ l : Nat) : Rat) := by
+  have hd : 0 < b - a := by linarith
+  have h2 : ((2 ^ l : Nat) : Rat) ≤ ((2 ^ 39 : Nat) : Rat) := by
+    exact_mod_cast Nat.pow_le_pow_right (by norm_num) hl
+  have hpos : (0 : Rat) < ((2 ^ l : Nat) : Rat) := by positivity
+  rw [lt_div_iff₀ hpos]
+  have h3 : ((2 ^ 39 : Nat) : Rat) < 1000000000000 := by norm_num
+  nlinarith
+
+/-- a mesh node within the tolerance of the lower end IS the lower end (levels `≤ 39`) -/
+theorem nearEnd_mesh_lo (a b : Rat) (hab : a < b) (l : Nat) (hl : l ≤ 39) (q : Rat) (hq : q ∈ meshAxis a b l false)
+    (h : nearEnd q a a b = true) : q = a := by
+  rw [meshAxis_eq_fullAxis, mem_fullAxis] at hq
+  obtain ⟨i, _, rfl⟩ := hq
+  have hd : 0 < b - a := by linarith
+  have hstep := tol_lt_step a b hab l hl
+  have hpos : (0 : Rat) < (b - a) / ((2 ^ l : Nat) : Rat) := div_pos hd (by positivity)
+  rcases Nat.eq_zero_or_pos i with rfl | hi
+  · exact linPt_zero a b _
+  · exfalso
+    unfold nearEnd at h
+    rw [decide_eq_true_eq] at h
+    have hsub : linPt a b (2 ^ l) i - a = (b - a) / ((2 ^ l : Nat) : Rat) * (i : Rat) := by unfold linPt; ring
+    have hi' : (1 : Rat) ≤ (i : Rat) := by exact_mod_cast hi
+    have hge : (b - a) / ((2 ^ l : Nat) : Rat) ≤ linPt a b (2 ^ l) i - a := by
+      rw [hsub]; nlinarith
+    rw [ratAbs_of_nonneg (by linarith)] at h
+    linarith
+
+/-- a mesh node within the tolerance of the upper end IS the upper end (levels `≤ 39`) -/
+theorem nearEnd_mesh_hi (a b : Rat) (hab : a < b) (l : Nat) (hl : l ≤ 39) (q : Rat) (hq : q ∈ meshAxis a b l false)
+    (h : nearEnd q b a b = true) : q = b := by
+  rw [meshAxis_eq_fullAxis, mem_fullAxis] at hq
+  obtain ⟨i, hi2, rfl⟩ := hq
+  have hn : 0 < 2 ^ l := Nat.pos_of_ne_zero (by positivity)
+  have hd : 0 < b - a := by linarith
+  have hstep := tol_lt_step a b hab l hl
+  have hpos : (0 : Rat) < (b - a) / ((2 ^ l : Nat) : Rat) := div_pos hd (by positivity)
+  rcases Nat.lt_or_ge i (2 ^ l) with hi | hi
+  · exfalso
+    unfold nearEnd at h
+    rw [decide_eq_true_eq] at h
+    have hsub : linPt a b (2 ^ l) i - b = (b - a) / ((2 ^ l : Nat) : Rat) * ((i : Rat) - ((2 ^ l : Nat) : Rat)) := by
+      have := linPt_sub a b (2 ^ l) i (2 ^ l)
+      rw [linPt_last a b _ hn] at this
+      exact this
+    have hi' : (i : Rat) + 1 ≤ ((2 ^ l : Nat) : Rat) := by exact_mod_cast hi
+    have hle : linPt a b (2 ^ l) i - b ≤ -((b - a) / ((2 ^ l : Nat) : Rat)) := by
+      rw [hsub]; nlinarith
+    rw [ratAbs_of_nonpos (by linarith)] at h
+    linarith
+  · have : i = 2 ^ l := by omega
+    rw [this]; exact linPt_last a b _ hn
+
+theorem anyNear_lo_onBoundary : ∀ (a b : List Rat) (l : LV) (q : List Rat), BoxOK a b →
+    InAxes (meshAxes a b l false) q → (∀ x ∈ l, x ≤ 39) → anyNear q a a b = true → OnBoundary a b q
+  | a :: as, b :: bs, l :: ls, q :: qs, hab, hq, hl, h => by
+      simp only [meshAxes, InAxes] at hq
+      simp only [anyNear, Bool.or_eq_true] at h
+      have hl0 : l.toNat ≤ 39 := by have := hl l (List.mem_cons_self ..); omega
+      rcases h with h | h
+      · exact Or.inl (nearEnd_mesh_lo a b hab.1 _ hl0 q hq.1 h)
+      · exact Or.inr (Or.inr (anyNear_lo_onBoundary as bs ls qs hab.2 hq.2
+          (fun x hx => hl x (List.mem_cons_of_mem _ hx)) h))
+  | [], _, _, _, _, _, _, h => by simp [anyNear] at h
+  | _ :: _, [], _, _, hab, _, _, _ => by simp [BoxOK] at hab
+  | _ :: _, _ :: _, [], _, _, hq, _, h => by
+      cases ‹List Rat› <;> simp [meshAxes, InAxes, anyNear] at hq h
+  | _ :: _, _ :: _, _ :: _, [], _, _, _, h => by simp [anyNear] at h
+
+theorem anyNear_hi_onBoundary : ∀ (a b : List Rat) (l : LV) (q : List Rat), BoxOK a b →
+    InAxes (meshAxes a b l false) q → (∀ x ∈ l, x ≤ 39) → anyNear q b a b = true → OnBoundary a b q
+  | a :: as, b :: bs, l :: ls, q :: qs, hab, hq, hl, h => by
+      simp only [meshAxes, InAxes] at hq
+      simp only [anyNear, Bool.or_eq_true] at h
+      have hl0 : l.toNat ≤ 39 := by have := hl l (List.mem_cons_self ..); omega
+      rcases h with h | h
+      · exact Or.inr (Or.inl (nearEnd_mesh_hi a b hab.1 _ hl0 q hq.1 h))
+      · exact Or.inr (Or.inr (anyNear_hi_onBoundary as bs ls qs hab.2 hq.2
+          (fun x hx => hl x (List.mem_cons_of_mem _ hx)) h))
+  | [], _, _, _, hab, _, _, h => by
+      cases ‹List Rat› <;> simp [anyNear] at h hab
+  | _ :: _, [], _, _, hab, _, _, _ => by simp [BoxOK] at hab
+  | _ :: _, _ :: _, [], _, _, hq, _, h => by
+      cases ‹List Rat› <;> simp [meshAxes, InAxes, anyNear] at hq h
+  | _ :: _, _ :: _, _ :: _, [], _, _, _, h => by simp [anyNear] at h
+
+/-- **the boundary test fires only on true boundary points**: all levels `≤ 39` -/
+theorem noFalseBoundary_of_levels (a b : List Rat) (hab : BoxOK a b) (c : List (LV × Int))
+    (hlev : ∀ p ∈ c, ∀ x ∈ p.1, x ≤ 39) : NoFalseBoundary a b c := by
+  intro p hp q hq hnz
+  rw [mem_cross] at hq
+  simp only [pointNotZero, Bool.false_or, Bool.not_eq_false', Bool.or_eq_true] at hnz
+  rcases hnz with h | h
+  · exact anyNear_lo_onBoundary a b p.1 q hab hq (hlev p hp) h
+  · exact anyNear_hi_onBoundary a b p.1 q hab hq (hlev p hp) h
+
+theorem not_onBoundary_of_inGrid : ∀ (a b : List Rat) (l : LV) (x : List Rat), BoxOK a b →
+    InGrid false a b l x → ¬ OnBoundary a b x
+  | a :: as, b :: bs, l :: ls, x :: xs, hab, hx, h => by
+      have hint := levelPoints_interior a b hab.1 _ hx.1
+      rcases h with h | h | h
+      · rw [h] at hint; exact lt_irrefl _ hint.1
+      · rw [h] at hint; exact lt_irrefl _ hint.2
+      · exact not_onBoundary_of_inGrid as bs ls xs hab.2 hx.2 h
+  | [], _, _, _, _, _, h => by simp [OnBoundary] at h
+  | _ :: _, [], _, _, _, _, h => by simp [OnBoundary] at h
+  | _ :: _, _ :: _, _, [], _, _, h => by simp [OnBoundary] at h
+  | _ :: _, _ :: _, [], _ :: _, _, hx, _ => by simp [InGrid] at hx
+
+theorem inAxes_mesh_of_inGrid (bd : Bool) : ∀ (a b : List Rat) (l : LV) (x : List Rat),
+    InGrid bd a b l x → InAxes (meshAxes a b l bd) x
+  | [], [], [], [], _ => trivial
+  | a :: as, b :: bs, l :: ls, x :: xs, h =>
+      ⟨levelPoints_sub_meshAxis a b _ bd h.1, inAxes_mesh_of_inGrid bd as bs ls xs h.2⟩
+  | [], [], [], _ :: _, h => by simp [InGrid] at h
+  | _ :: _, _ :: _, _ :: _, [], h => by simp [InGrid] at h
+  | [], _ :: _, _, _, h => by simp [InGrid] at h
+  | _ :: _, [], _, _, h => by simp [InGrid] at h
+  | [], [], _ :: _, _, h => by simp [InGrid] at h
+  | _ :: _, _ :: _, [], _, h => by simp [InGrid] at h
+
+/-- no point of a component grid (levels `≤ 39`) is mistaken for a boundary point -/
+theorem pointNotZero_of_inGrid (a b : List Rat) (hab : BoxOK a b) (bd : Bool) (l : LV) (hl : ∀ x ∈ l, x ≤ 39)
+    (x : List Rat) (hx : InGrid bd a b l x) : pointNotZero a b bd x = true := by
+  cases bd
+  · by_contra hne
+    have hnz : pointNotZero a b false x = false := by simpa using hne
+    have hq := inAxes_mesh_of_inGrid false a b l x hx
+    simp only [pointNotZero, Bool.false_or, Bool.not_eq_false', Bool.or_eq_true] at hnz
+    rcases hnz with h | h
+    · exact not_onBoundary_of_inGrid a b l x hab hx (anyNear_lo_onBoundary a b l x hab hq hl h)
+    · exact not_onBoundary_of_inGrid a b l x hab hx (anyNear_hi_onBoundary a b l x hab hq hl h)
+  · simp [pointNotZero]
 
 /-! ## tensor hats -/
 
@@ -294,5 +440,26 @@ theorem trapProd_hatVec (bd : Bool) : ∀ (a b : List Rat) (k : LV) (i : List Na
   | _ :: _, _ :: _, [], _, _, hl, _ => by simp at hl
   | [], [], [], _ :: _, _, _, hi => by simp [HatIdx] at hi
   | _ :: _, _ :: _, _ :: _, [], _, _, hi => by simp [HatIdx] at hi
+
+/-! ## the levels of the standard scheme are bounded by `lmax` -/
+
+theorem le_of_sum_le (lmin M : Int) : ∀ (k : LV), geAll lmin k → k.sum ≤ M - lmin + (k.length : Int) * lmin →
+    ∀ x ∈ k, x ≤ M
+  | [], _, _, x, hx => by simp at hx
+  | y :: ys, hg, hs, x, hx => by
+      have hy : lmin ≤ y := hg y (List.mem_cons_self ..)
+      have hys : geAll lmin ys := fun z hz => hg z (List.mem_cons_of_mem _ hz)
+      have hlow := sum_ge_of_geAll lmin ys hys
+      simp only [List.sum_cons, List.length_cons] at hs
+      push_cast at hs
+      rcases List.mem_cons.1 hx with rfl | hx
+      · nlinarith
+      · exact le_of_sum_le lmin M ys hys (by nlinarith) x hx
+
+theorem std_levels_le (dim : Nat) (lmin lmax : Int) (hd : 1 ≤ dim) (h0 : 0 ≤ lmin) (h : lmin ≤ lmax) :
+    ∀ p ∈ stdScheme dim lmin lmax, ∀ x ∈ p.1, x ≤ lmax := by
+  intro p hp
+  have hI := (mem_I_init dim lmin lmax hd h p.1).1 ((std_valid dim lmin lmax hd h0 h).supp p hp)
+  exact le_of_sum_le lmin lmax p.1 hI.2.1 (by rw [hI.1]; exact hI.2.2)
 
 end SparseSpace
